@@ -46,6 +46,7 @@ type CNode struct {
 	gen       int
 	// makeFollows / insert callback of the current follower instance
 	streams []*followerStream
+	queryFn planner.QueryClusterFN
 }
 
 type followerStream struct {
@@ -143,6 +144,7 @@ func (c *Cluster) startNode(cn *CNode, dir string) error {
 			c.connectFollower(cn, fs)
 		}
 		opts.RegisterRemoteQueryHandler = func(db *zenodb.DB, partition int, query planner.QueryClusterFN) {
+			cn.queryFn = query
 			c.registerHandlers(cn, gen, partition, query)
 		}
 	}
@@ -222,6 +224,13 @@ func (l *ReplLink) run() {
 				time.Sleep(200 * time.Millisecond)
 				l.mu.Lock()
 				broken := l.session != session || l.stopped
+				// the connection dies with either process
+				if l.leader.N != leaderNode || !l.leader.Up || !l.follower.Up || l.fs.gen != l.follower.gen {
+					broken = true
+					if l.session == session {
+						l.session++
+					}
+				}
 				l.mu.Unlock()
 				if broken {
 					break
@@ -550,7 +559,35 @@ func (c *Cluster) StartNode(cn *CNode, empty bool) error {
 	}
 	c.e.Sleep(2 * time.Millisecond)
 	c.e.Count("fault.node.start")
-	return c.startNode(cn, dir)
+	if err := c.startNode(cn, dir); err != nil {
+		return err
+	}
+	if cn.Leader {
+		// followers register their query handlers with the new instance (the
+		// feed loop of a real follower reconnects)
+		for _, f := range c.Followers {
+			if f.Up && f.queryFn != nil {
+				c.registerHandlers(f, f.gen, f.Partition, f.queryFn)
+			}
+		}
+	}
+	return nil
+}
+
+// ReapCrashed turns nodes whose crash point fired into down nodes.
+func (c *Cluster) ReapCrashed() []*CNode {
+	var out []*CNode
+	for _, cn := range append(append([]*CNode(nil), c.Followers...), c.Leaders...) {
+		if cn.Up && cn.N.Crashed {
+			cn.Up = false
+			cn.gen++
+			cn.N.Dead = true
+			cn.N.Abandon()
+			c.e.Count("fault.node.crashpoint")
+			out = append(out, cn)
+		}
+	}
+	return out
 }
 
 func (c *Cluster) followerByName(name string) *CNode {
